@@ -1,7 +1,7 @@
------------------------------- MODULE Trace_C09 ------------------------------
-EXTENDS DiffReportContract, Json, IOUtils
+------------------------------ MODULE Trace_C02 ------------------------------
+EXTENDS FingerprintContract, Json, IOUtils
 VARIABLES l, ok
-EvOK(e) == IF e.ev = "diff" THEN C09OK(e) ELSE TRUE
+EvOK(e) == C02OK(e)
 TraceData == ndJsonDeserialize(IOEnv.TRACE)
 T == INSTANCE TraceStateless WITH EventOK <- EvOK, Trace <- TraceData
 Spec == T!TSSpec
